@@ -15,6 +15,10 @@ func init() {
 		Rules: []Rule{
 			{"ONE-TO-ONE-GUARD", ruleOneToOneGuard},
 			{"ONE-TO-ONE-SCAN", ruleOneToOneScan},
+			{"SEEN-SET", func(c *eng.Ctx) { ruleSeenSet(c, "SEEN-SET", []string{"internal/planner/..."}, 1) }},
+			{"RECURSION-ARGS", func(c *eng.Ctx) {
+				ruleRecursionArgs(c, "RECURSION-ARGS", []string{"internal/planner/..."}, 3)
+			}},
 		},
 		Meta: eng.PropMeta{
 			Explanation: "Decides only the third clause of the property ('local writes never leave a one-to-one link held by two documents'): (ONE-TO-ONE-GUARD) in collection.save every field-level AddDelta is preceded, in the same loop iteration, by validateOneToOneLinkDoesntAlreadyExist whose error edge returns; (ONE-TO-ONE-SCAN) inside that guard the only ways to skip the 'already linked' scan are decisions over the value being nil and the kinds of the two relation fields (schema shape) — no other input (indexes, options, caches) can exempt a write — and a positive scan result yields an error.",
